@@ -450,7 +450,7 @@ def rule_broadcast(ctx):
     # table of the update test) and the interpretation of _get_axes on abstract arrays (scenario table: equal / differing labels, single label, placeholder, empty axis
     # in both orders, three arrays, missing dimensions).  The structural reading counts when it ends without a complaint; otherwise the table decides.
     from ..report import Trial
-    real_ctx, ctx = ctx, Trial(ctx)
+    real_ctx, ctx = ctx, Trial(ctx, about=[AL + '_get_axes'])
     try:
         _get_axes_structural(ctx)
     except AnalysisError as e:
